@@ -195,6 +195,8 @@ func c03(r *Report) {
 	})
 
 	r.Guard("C03.R2", "a failed or partial response write ends the connection", func() {
+		// a response cut short by the origin stays detectably incomplete when a logger looks at it
+		snapshotBodyAfterCheckRule(r)
 		// once the response has been handed to the client connection the exchange tells
 		// the loop only "go on" (nil) or "close" (errClose): an upstream error that was
 		// already answered with a 502 must not reach the loop, where a closeable one
